@@ -216,5 +216,11 @@ func AcceptBidToBuy1SatOrdinal(ctx context.Context, vba *ValidateBidArgs, aba *A
 		return nil, err
 	}
 
+	// the seller's signature has grown the transaction: check the fee on the final size
+	enough, err = tx.IsFeePaidEnough(vba.ExpectedFQ)
+	if err != nil || !enough {
+		return nil, bt.ErrInsufficientFees
+	}
+
 	return tx, nil
 }
